@@ -131,6 +131,8 @@ func TestVerifC19(t *testing.T) {
 			hdr["Authorization"] = "Basic " + base64.StdEncoding.EncodeToString([]byte("u:p"))
 		}
 		vhook.Reset()
+		vfEvReset()
+		chPrefix := fmt.Sprintf("r%dc", round)
 		if delay {
 			vhook.SetDelay("recv.before-add-channel", 2*time.Millisecond)
 		}
@@ -218,9 +220,9 @@ func TestVerifC19(t *testing.T) {
 				okMedia++
 			}
 		}
-		vfQuiesce(2 * okMedia)
+		vfWaitCompleted(chPrefix, okMedia, 20*time.Second)
 		time.Sleep(5 * time.Millisecond)
-		evs := vhook.Drain()
+		evs := vfEventsFor(chPrefix)
 		snap := vfSnapshot(rv.storage, chans)
 		det := func(what string) map[string]any {
 			return map[string]any{"round": round, "channels": C, "tracks": T, "media_per_track": M, "auth": auth, "delay_point": delay, "what": what}
@@ -287,7 +289,7 @@ func TestVerifC19(t *testing.T) {
 		// (2) sequential replay of the observed serialization
 		if !bad {
 			rv2 := vfNewReceiver(t, 60, cfg)
-			base := vhook.Count("recv.processed")
+			vfEvReset()
 			n := 0
 			// replay the observed serialization: registrations (init uploads) and completed media segments in event order
 			for _, e := range evs {
@@ -304,9 +306,9 @@ func TestVerifC19(t *testing.T) {
 					for _, tr := range tracks {
 						if tr.name == trn {
 							if rv2.put(fmt.Sprintf("%s/%s/%d%s", ch, tr.name, seq, tr.ext), tr.segment(ch, seq, 0, 1), hdr) == 200 {
-								n += 2
+								n++
 							}
-							vfQuiesce(base + n)
+							vfWaitCompleted(chPrefix, n, 20*time.Second)
 						}
 					}
 				}
